@@ -81,8 +81,23 @@ trait Cont: zeroize::Zeroize + Bytes + MutBytes + NewBytes + Default + Clone + L
     fn clone_lockedro(_p: &LockedRO<Self>) -> Option<LockedRO<Self>> { None }
     fn from_slice_locked(_s: &[u8]) -> Option<Result<Locked<Self>, dryoc::Error>> { None }
     fn from_slice_lockedro(_s: &[u8]) -> Option<Result<LockedRO<Self>, dryoc::Error>> { None }
+    /// serde decode of an encoding that carries `payload` into the locked form of the container
+    fn serde_locked(_fmt: &str, _payload: &[u8]) -> Option<Result<Locked<Self>, ()>> { None }
+}
+fn serde_encode(fmt: &str, payload: &[u8]) -> Vec<u8> {
+    if fmt == "json" {
+        format!("[{}]", payload.iter().map(|b| b.to_string()).collect::<Vec<_>>().join(",")).into_bytes()
+    } else {
+        let mut v = (payload.len() as u64).to_le_bytes().to_vec();
+        v.extend_from_slice(payload);
+        v
+    }
+}
+fn serde_decode<T: serde::de::DeserializeOwned>(fmt: &str, enc: &[u8]) -> Result<T, ()> {
+    if fmt == "json" { serde_json::from_slice(enc).map_err(|_| ()) } else { bincode::deserialize(enc).map_err(|_| ()) }
 }
 impl Cont for HeapBytes {
+    fn serde_locked(fmt: &str, payload: &[u8]) -> Option<Result<Locked<Self>, ()>> { Some(serde_decode::<Locked<HeapBytes>>(fmt, &serde_encode(fmt, payload))) }
     fn resize_plain(&mut self, n: usize) -> bool { self.resize(n, 0); true }
     fn resize_unlocked(p: &mut Unlocked<Self>, n: usize) -> bool { p.resize(n, 0); true }
     fn resize_locked(p: &mut Locked<Self>, n: usize) -> bool { p.resize(n, 0); true }
@@ -92,6 +107,7 @@ impl Cont for HeapBytes {
     fn from_slice_lockedro(s: &[u8]) -> Option<Result<LockedRO<Self>, dryoc::Error>> { Some(HeapBytes::from_slice_into_readonly_locked(s)) }
 }
 impl<const N: usize> Cont for HeapByteArray<N> {
+    fn serde_locked(fmt: &str, payload: &[u8]) -> Option<Result<Locked<Self>, ()>> { Some(serde_decode::<Locked<HeapByteArray<N>>>(fmt, &serde_encode(fmt, payload))) }
     fn from_slice_locked(s: &[u8]) -> Option<Result<Locked<Self>, dryoc::Error>> { Some(HeapByteArray::<N>::from_slice_into_locked(s)) }
     fn from_slice_lockedro(s: &[u8]) -> Option<Result<LockedRO<Self>, dryoc::Error>> { Some(HeapByteArray::<N>::from_slice_into_readonly_locked(s)) }
 }
@@ -225,6 +241,18 @@ fn run<A: Cont>(len: usize, toks: &[&str]) -> String {
                         _ => "n/a".into(),
                     }
                 }
+                // fillfrom:<offset>:<byte> — write the byte from an offset to the end (leaves an all-zero prefix)
+                "fillfrom" => {
+                    if idx >= slots.len() { return "noslot".into(); }
+                    let (o, b) = arg.split_once(':').unwrap_or(("0", "a5"));
+                    let (o, b) = (o.parse::<usize>().unwrap_or(0), u8::from_str_radix(b, 16).unwrap_or(0xa5));
+                    match &mut slots[idx].r {
+                        Reg::Plain(a) => { let s = a.as_mut_slice(); if o <= s.len() { s[o..].fill(b); } "ok".into() }
+                        Reg::UR(p) => { let s = p.as_mut_slice(); if o <= s.len() { s[o..].fill(b); } "ok".into() }
+                        Reg::LR(p) => { let s = p.as_mut_slice(); if o <= s.len() { s[o..].fill(b); } "ok".into() }
+                        _ => "n/a".into(),
+                    }
+                }
                 "lock" => {
                     match take!() {
                         Reg::Plain(a) => put!(a.mlock().map(Reg::LR)),
@@ -302,6 +330,18 @@ fn run<A: Cont>(len: usize, toks: &[&str]) -> String {
                     if ok { slots[idx].refresh(); "ok".into() } else { "n/a".into() }
                 }
                 "drop" => { let r = take!(); drop(r); "ok".into() }
+                // an explicit Zeroize::zeroize() on the live container (public trait): only on plain / unlocked read-write
+                // regions, where it leaves the type state intact (outside the Lean model: judged by the release events alone)
+                "zeroize" => {
+                    if idx >= slots.len() { return "noslot".into(); }
+                    use zeroize::Zeroize;
+                    let ok = match &mut slots[idx].r {
+                        Reg::Plain(a) => { a.zeroize(); true }
+                        Reg::UR(p) => { p.zeroize(); true }
+                        _ => false,
+                    };
+                    if ok { slots[idx].refresh(); "ok".into() } else { "n/a".into() }
+                }
                 "fsl" | "fsro" => {
                     let n: usize = arg.parse().unwrap_or(0);
                     let src = vec![0x5au8; n];
@@ -312,6 +352,16 @@ fn run<A: Cont>(len: usize, toks: &[&str]) -> String {
                     };
                     match r {
                         Some(Ok(r)) => { let mut s = Slot { r, ptr: 0, len: 0 }; s.refresh(); slots.push(s); "ok".into() }
+                        Some(Err(_)) => "err".into(),
+                        None => "n/a".into(),
+                    }
+                }
+                // serde:<json|bincode>:<n> — decode n bytes (0x5a) into the LOCKED form of the container → new region
+                "serde" => {
+                    let (fmt, n) = arg.split_once(':').unwrap_or(("json", "0"));
+                    let src = vec![0x5au8; n.parse().unwrap_or(0)];
+                    match A::serde_locked(fmt, &src) {
+                        Some(Ok(r)) => { let mut s = Slot { r: Reg::LR(r), ptr: 0, len: 0 }; s.refresh(); slots.push(s); "ok".into() }
                         Some(Err(_)) => "err".into(),
                         None => "n/a".into(),
                     }
